@@ -38,7 +38,7 @@ def classify(text):
 
 
 def validate(ctx, tf, c, invs, what, count_traces, mod="StreamMT"):
-    ok, info = vlib.validate_trace(ctx, mod + "_Trace", tf, c, invariants=invs, timeout=1500, xmx="8g")
+    ok, info = vlib.validate_trace(ctx, mod + "_Trace", tf, c, invariants=invs, timeout=3000, xmx="8g")
     if ok:
         ctx.cov["traces_validated_against_impl"] += count_traces
         return True
@@ -50,7 +50,7 @@ def validate(ctx, tf, c, invs, what, count_traces, mod="StreamMT"):
 def model(ctx, c, invs, mod="StreamMT"):
     cfg = ctx.path("smt.cfg")
     vlib.write_cfg(cfg, c, spec="Spec", invariants=invs)
-    r = vlib.tlc(ctx, mod, cfg, workers=8, timeout=1700, xmx="16g")
+    r = vlib.tlc(ctx, mod, cfg, workers=8, timeout=4000, xmx="16g")
     if r.violated or not r.ok:
         raise vlib.ToolError(f"{mod}.tla (no quirks) violates {r.violated}:\n{r.out[-2000:]}")
     ctx.cov["states"] += r.distinct
@@ -61,7 +61,7 @@ def cover_replay(ctx, c, cap, invs, mod="StreamMT"):
     nc = ["--nc"] if mod == "NCStream" else []
     cfg = ctx.path("smt-edges.cfg")
     vlib.write_cfg(cfg, c, spec="SpecE")
-    r = vlib.tlc(ctx, "MC_" + mod, cfg, workers=1, timeout=1700, xmx="16g")
+    r = vlib.tlc(ctx, "MC_" + mod, cfg, workers=1, timeout=4000, xmx="16g")
     edges = [json.loads(s) for s in r.lines("EDGE")]
     if not edges:
         raise vlib.ToolError("no EDGE lines from MC_StreamMT")
